@@ -246,6 +246,20 @@ attempts:
 		in := &instance{spec: spec, dir: dir, logPath: filepath.Join(dir, "log.txt"), done: make(chan struct{})}
 		in.node = fmt.Sprintf("%s-%d-%d", spec.Name, os.Getpid(), attempt)
 		in.args, in.api, in.repl = spec.build(dir, in.node, ports)
+		if t := spec.ReplTLS; t != nil && (t.AllowedCN != "" || t.AllowedHostname != "") {
+			// replication.allowed-cn / replication.allowed-hostname are read by the leader but have
+			// no command line flag: they come from the configuration file (./config.yaml)
+			cfgYAML := "replication:\n"
+			if t.AllowedCN != "" {
+				cfgYAML += fmt.Sprintf("  allowed-cn: %q\n", t.AllowedCN)
+			}
+			if t.AllowedHostname != "" {
+				cfgYAML += fmt.Sprintf("  allowed-hostname: %q\n", t.AllowedHostname)
+			}
+			if err := os.WriteFile(filepath.Join(dir, "config.yaml"), []byte(cfgYAML), 0o600); err != nil {
+				return nil, err
+			}
+		}
 		logf, err := os.Create(in.logPath)
 		if err != nil {
 			return nil, err
